@@ -317,16 +317,16 @@ def log_convergents(b, maxq):
 
 def sizeinbase_critical(rng, tier):
     """b^n, b^n - 1 for n the numerators of the convergents of log_b 2 (compact power ops: the operand is built in
-    the harness), all non-power-of-two bases; quick: up to 2^21 bits, thorough: up to 2^27 bits plus the two
+    the harness), all non-power-of-two bases; quick: up to 2^21 bits, thorough: up to 2^25 bits plus the
     historical failures"""
-    maxq = (1 << 21) if tier == "quick" else (1 << 27)
+    maxq = (1 << 21) if tier == "quick" else (1 << 25)
     for b in range(3, 63):
         if is_pow2(b): continue
         for n, t in log_convergents(b, maxq):
             if t < 64: continue
             for d in (0, -1, 1):
                 yield "mpz_sizeinbase_pow %s %s %s" % (hx(b), hx(n), hx(d))
-            if t <= (1 << 17) or (tier != "quick" and t <= (1 << 22)):
+            if t <= (1 << 17) or (tier != "quick" and t <= (1 << 20)):
                 yield "mpz_get_str_pow_len %s %s 0" % (hx(b), hx(n))
                 yield "mpz_get_str_pow_len %s %s -1" % (hx(b), hx(n))
     if tier != "quick":
